@@ -35,6 +35,12 @@ SHAPE = (2,)
 DTYPE = np.int64
 
 
+def dtype_of(prog: dict) -> Any:
+    """Element type of every array of the program (default int64; "f8" gives
+    a floating-point variant for the stage that runs generated code)."""
+    return np.dtype(prog.get("dtype", "i8"))
+
+
 # --------------------------------------------------------------------------
 # building the per-rank DAGs
 
@@ -65,6 +71,7 @@ def build_rank(prog: dict, r: int) -> tuple[Any, list[Any]]:
     from . import usertags
     kind = prog.get("tagkind", "str")
     rk = prog["ranks"][r]
+    DTYPE = dtype_of(prog)          # noqa: N806
     arrs: list[Any] = []
     memo: dict[tuple, Any] = {}
 
@@ -125,8 +132,10 @@ def make_inputs(prog: dict, seed: int) -> list[dict[str, np.ndarray]]:
         d = {}
         for nd in rk["nodes"]:
             if nd["k"] == "in":
-                d[nd["name"]] = rng.integers(1, 1000, size=tuple(nd.get("shape", SHAPE))
-                                             ).astype(DTYPE)
+                v = rng.integers(1, 1000, size=tuple(nd.get("shape", SHAPE)))
+                if dtype_of(prog).kind == "f":
+                    v = v + rng.random(size=v.shape)
+                d[nd["name"]] = v.astype(dtype_of(prog))
         res.append(d)
     return res
 
@@ -714,6 +723,18 @@ class ExecResult:
     anomalies: list[dict]
     nsteps: int
     leftovers: list[dict] = dataclasses.field(default_factory=list)
+    kernel_issues: list[dict] = dataclasses.field(default_factory=list)
+
+
+def _differs(got: np.ndarray, ref: np.ndarray) -> str | None:
+    """Exact for integers; floating point within the tolerance of
+    ptverif.runprog.compare."""
+    from .runprog import compare
+    got, ref = np.asarray(got), np.asarray(ref)
+    if got.dtype != ref.dtype:
+        return f"dtype {got.dtype} vs {ref.dtype}"
+    scale = float(np.max(np.abs(ref))) if ref.size and ref.dtype.kind == "f" else 0.0
+    return compare(got, ref, ref.dtype, scale)
 
 
 class ExecHarness:
@@ -722,7 +743,8 @@ class ExecHarness:
     def __init__(self, pl: Pipeline, inst: dict, vt: ValueTable, chooser: Any,
                  grain: str = "model", visited: set | None = None,
                  replay_len: int = 0, record_states: bool = False,
-                 parts_override: list[Any] | None = None):
+                 parts_override: list[Any] | None = None,
+                 programs: list[dict] | None = None):
         self.pl, self.inst, self.vt = pl, inst, vt
         self.n = pl.prog["nranks"]
         self.grain = grain
@@ -744,6 +766,10 @@ class ExecHarness:
         self.partitions = parts_override or pl.num
         self.pid_index = [{pid: i for i, pid in enumerate(p.parts)} for p in self.partitions]
         self.outputs: list[dict | None] = [None] * self.n
+        # programs[r][pid](**inputs) -> {name: ndarray}: REAL generated code for
+        # the parts (else the reference evaluator runs them)
+        self.programs = programs
+        self.kernel_issues: list[dict] = []
 
     # -- hooks called from the rank threads --------------------------------
     def raw(self, rank: int, ev: dict) -> None:
@@ -786,7 +812,25 @@ class ExecHarness:
             self.begin_exec(r, pid)            # fallback if the hook did not fire
             self.raw(r, {"ev": "prg_call", "pid": self.pid_index[r][pid],
                          "ins": dict(kw)})
-            res = ref_eval({nm: p.name_to_output[nm] for nm in part.output_names}, kw)
+            ref = ref_eval({nm: p.name_to_output[nm] for nm in part.output_names}, kw)
+            res = ref
+            if self.programs is not None:
+                bound = self.programs[r][pid]
+                got = bound(**{k: np.asarray(v) for k, v in kw.items()})
+                lifted = set(getattr(bound, "lifted", ()) or ())
+                extra = set(got) - set(part.output_names) - lifted
+                missing = set(part.output_names) - set(got)
+                if extra or missing:
+                    self.kernel_issues.append({
+                        "rank": r, "pid": self.pid_index[r][pid], "what": "result_names",
+                        "extra": sorted(extra), "missing": sorted(missing)})
+                res = {nm: np.asarray(got[nm]) for nm in part.output_names if nm in got}
+                for nm in res:
+                    why = _differs(res[nm], ref[nm])
+                    if why and len(self.kernel_issues) < 20:
+                        self.kernel_issues.append({
+                            "rank": r, "pid": self.pid_index[r][pid], "what": "kernel_vs_reference",
+                            "name": nm, "why": why})
             self.raw(r, {"ev": "prg_ret", "pid": self.pid_index[r][pid], "outs": dict(res)})
             return None, res
         return prg
@@ -957,7 +1001,8 @@ class ExecHarness:
         return ExecResult(status, self.outputs, self.events,
                           list(getattr(ch, "taken", [])), list(getattr(ch, "widths", [])),
                           self.states, self.edges, self.world.stuck, self.world.pruned,
-                          self.world.anomalies, self.world.nsteps, left)
+                          self.world.anomalies, self.world.nsteps, left,
+                          list(self.kernel_issues))
 
 
 def run_once(pl: Pipeline, inst: dict, vt: ValueTable, chooser: Any, **kw: Any) -> ExecResult:
